@@ -15,11 +15,15 @@ import (
 	"os/exec"
 	"path/filepath"
 	"runtime/debug"
+	"strconv"
 	"strings"
 	"sync"
 	"syscall"
 	"time"
 )
+
+// maxStackForRun is what the children's debug.SetMaxStack gets (set in main).
+var maxStackForRun = defaultMaxStack
 
 type childMsg struct {
 	Kind   string // "progress" | "result"
@@ -30,9 +34,23 @@ type childMsg struct {
 const (
 	childMemLimit = 6 << 30 // RLIMIT_AS of a child
 	// Go's default maximum stack (1 GB on 64-bit) is what cmd/wuffs-c and
-	// cmd/wuffsfmt run with; keep exactly that.
-	childMaxStack = 1000000000
+	// cmd/wuffsfmt run with: the thorough tier keeps exactly that (and nests
+	// 3 000 000 deep). The quick tier gives the children 1/8 of it and nests
+	// 800 000 deep instead: recursion that is proportional to the input size
+	// overflows either way (≥ 160 bytes of stack per level there, ≥ 333 here),
+	// recursion bounded by the ast.Max…Depth constants never does, and the
+	// inputs are a quarter of the size.
+	defaultMaxStack = 1000000000
+	quickMaxStack   = 125000000
 )
+
+// childMaxStack is set by the parent through C11_MAXSTACK.
+func childMaxStack() int {
+	if v, err := strconv.Atoi(os.Getenv("C11_MAXSTACK")); err == nil && v > 0 {
+		return v
+	}
+	return defaultMaxStack
+}
 
 func loadUseFiles(genroot string) {
 	dir := filepath.Join(genroot, "gen", "wuffs")
@@ -49,7 +67,7 @@ func loadUseFiles(genroot string) {
 }
 
 func childMain(genroot string) {
-	debug.SetMaxStack(childMaxStack)
+	debug.SetMaxStack(childMaxStack())
 	lim := syscall.Rlimit{Cur: childMemLimit, Max: childMemLimit}
 	syscall.Setrlimit(syscall.RLIMIT_AS, &lim)
 	loadUseFiles(genroot)
@@ -122,7 +140,7 @@ func startChild(genroot string) (*child, error) {
 		return nil, err
 	}
 	cmd := exec.Command(exe, "-child", genroot)
-	cmd.Env = append(os.Environ(), "GOTRACEBACK=single", "GOMAXPROCS=2")
+	cmd.Env = append(os.Environ(), "GOTRACEBACK=single", "GOMAXPROCS=2", "C11_MAXSTACK="+strconv.Itoa(maxStackForRun))
 	stdin, err := cmd.StdinPipe()
 	if err != nil {
 		return nil, err
